@@ -160,6 +160,11 @@ def run(tier: str) -> int:
             for edit in (None, ("Write", "p1", "c2"), ("Delete", "p1")):
                 jobs.append((setup, (kind, None), edit))
                 meta.append((kind, str(edit), si))
+        from ..workspace import NOT_JSON
+
+        for flavour in range(1, len(NOT_JSON)):  # bytes that are not text, a cut inside a multi-byte character, ...
+            jobs.append((setup, ("not_json", flavour), None))
+            meta.append(("not_json", f"flavour {flavour}", si))
     # sequences of faults interleaved with scans (TLC-chosen histories containing Damage), sampled
     rng = random.Random(seed() * 29 + 10)
     g = tlc.run("Workspace", tlc.cfg(dict(mc, MaxOps=4, Ops='{"Write", "Delete", "SetExcl", "Damage", "Scan"}', FaultKinds='{"truncated", "empty", "not_json", "shape", "dir_without_file"}'), spec="Spec"), wd,
